@@ -54,6 +54,10 @@ CLAIMED = {
          "Machine-checked theorems over an executable model of SSHConnector._connect's argv, _scp_copy's argv and copy()'s host-pair dispatch: reading the ssh command line back yields exactly user@host, port, identity/password, batch mode unless a password is used, host-key checking off iff configured, multiplexing iff enabled, every extra option in order; scp carries the same parameters (options up to order) and the caller's operands for both directions; every scp branch of copy() uses the REMOTE machine's parameters on the local side; unsupported pairings raise. Tied to /repo by running the real _connect and copy() against recording hosts over the whole grid (configs x auth kinds x multiplexing x 7 pairings x 2 directions) with an independent command-line reader as oracle.",
          "Trusted: Coq kernel + vm_compute; hand-written model coq/SshScp.v; a stub paramiko module (configuration properties and dispatch only); OpenSSH option semantics not modelled; distinct machines = distinct classes.",
          "DESIGN.md 8/C20"),
+ "C16": ("Coq proof by induction over testcase trees (custom induction principle for the nested tree type) and over the list of top-level testcases + correspondence: every generated forest is rendered as a Python module and run through both command lines in subprocesses",
+         "Machine-checked theorems over an executable model of the testcase block, the decorators and the CLI try/except ladder: begin/end events are well nested for every tree, an end event says success exactly when the body finished without an exception and skipped exactly when the body raised the skip exception (which then yields None to the caller), the nesting level is restored, the exit status is 0 with a final SUCCESS iff no exception escaped a top-level testcase, otherwise 1 (130 for a keyboard interrupt) with an exception event and FAILURE, and no testcase after the failing one is run or reported. Tied to /repo by running both real CLIs (tbot.main, tbot.newbot) on all trees up to the node bound and on sequences of top-level testcases, reading the JSON log with the harness' own reader.",
+         "Trusted: Coq kernel + vm_compute; hand-written model coq/Testcase.v; the module renderer and log reader of the harness; exception kinds Exception / KeyboardInterrupt / SkipException only.",
+         "DESIGN.md 8/C16"),
 }
 NOT_YET = "check not built yet (work in progress; will be claimed once its Coq theorems and correspondence check exist)"
 
